@@ -96,6 +96,34 @@ fn judge(pat: &[u32], fl: Flags, st: &mut Stats, run: &Run, origin: &str) {
     }
 }
 
+
+/// Seed patterns for the edit-distance part (also used by C07 for truncations): printed profile
+/// patterns plus hand-written structured syntax that needs more than five tokens.
+pub fn seed_patterns(thorough: bool) -> Vec<Vec<u32>> {
+    let mut seeds: Vec<Vec<u32>> = Vec::new();
+    for (pname, size) in [("named", 4usize), ("mods", 3), ("look", 3), ("core", 3), ("onechar", 2), ("icase", 2)] {
+        let sp = profiles::by_name(pname).unwrap();
+        let by = enumerate::enumerate(&sp.profile, if thorough { size + 1 } else { size });
+        for list in by {
+            for ast in list {
+                seeds.push(print::print(&ast));
+            }
+        }
+    }
+    // hand-written seeds for structured syntax that needs more than 5 tokens
+    for s in [
+        "(?<a>x)\\k<a>", "(?<a>x)|(?<a>y)", "(?:(?<a>x)|(?<a>y))\\k<a>", "(?<a>x)(?<a>y)", "(?<a>(?<a>x))", "(?:(?<a>x)|b)(?:c|(?<a>y))", "(?<a>x)|(?:(?<a>y)|z)", "((?<a>x)|(?<a>y))(?<a>z)", "\\k<a>", "\\k<a>(?<a>x)", "(?<a>x)\\k<b>",
+        "(?i:a)", "(?-i:a)", "(?i-m:a)", "(?ii:a)", "(?i-i:a)", "(?-:a)", "(?:a)", "(?ims-:a)", "(?i-ms:a)(?s:.)", "[\\q{ab|c}]", "[^\\q{ab}]", "[^\\q{a}]", "[a&&b]", "[a--b]", "[a&&b--c]", "[[a-z]&&[^aeiou]]", "[a&&&b]", "[a-z&&b]", "[\\p{L}--\\p{Lu}]",
+        "[^\\p{RGI_Emoji}]", "\\P{RGI_Emoji}", "\\p{RGI_Emoji}", "[\\p{RGI_Emoji}--\\q{a}]", "[a-]", "[-a]", "[a-\\d]", "[\\d-a]", "[\\d-\\w]", "[z-a]", "[\\b]", "[\\-]", "[\\c1]", "[\\c]", "\\c1", "\\ca", "\\c", "[\\k]", "\\k", "\\u{61}", "\\u{110000}",
+        "\\u0061", "\\ud83d\\ude00", "\\x61", "\\x6", "\\00", "\\08", "\\011", "\\1(a)", "\\2(a)", "\\10", "(a)(a)(a)(a)(a)(a)(a)(a)(a)(a)\\10", "\\8", "\\9", "a{1,2}", "a{2,1}", "a{1", "a{1,", "a{,1}", "a{}", "{1}", "a{1}{2}", "a**", "a*?", "a??", "a+*",
+        "(?=a)*", "(?!a)+", "(?<=a)*", "(?<!a)?", "\\b*", "\\B+", "^*", "$?", "(?<=a)", "(?<a", "(?<1a>x)", "(?<a-b>x)", "(?<$_>x)", "(?<\\u0061>x)\\k<a>", "(?<\\u{61}>x)", "(?<a\\u{1F600}>x)", "]", "}", "{", ")", "(", "[", "[]", "[^]", "a|", "|", "||a", "()", "(|)",
+        "\\p{Lu}", "\\p{gc=Lu}", "\\p{Script=Latin}", "\\p{scx=Latn}", "\\p{Foo}", "\\p{Lu", "\\p", "\\pL", "\\P{Any}", "\\p{ASCII}", "[\\p{Lu}-z]", "[!!]", "[a!!b]", "[?*]", "[+^]", "[&a]", "[a&]", "[&&]", "[(]", "[a|b]", "[\\|]", "[\\&]", "[\\!]", "[\\a]",
+    ] {
+        seeds.push(s.chars().map(|c| c as u32).collect());
+    }
+    seeds
+}
+
 const MODES: [&str; 3] = ["", "u", "v"];
 
 pub fn c08(run: &mut Run) -> Stats {
@@ -122,28 +150,7 @@ pub fn c08(run: &mut Run) -> Stats {
     // (b) printed profile patterns and all their single-token edits
     let edit_toks: Vec<u32> = "()[]{}?*+|^$\\.-,:=!<>&ak1n0".chars().map(|c| c as u32).collect();
     let mut seeds: Vec<(Vec<u32>, Flags)> = Vec::new();
-    for (pname, size) in [("named", 4usize), ("mods", 3), ("look", 3), ("core", 3), ("onechar", 2), ("icase", 2)] {
-        let sp = profiles::by_name(pname).unwrap();
-        let by = enumerate::enumerate(&sp.profile, if thorough { size + 1 } else { size });
-        for list in by {
-            for ast in list {
-                let p = print::print(&ast);
-                for m in MODES {
-                    seeds.push((p.clone(), Flags::parse(m)));
-                }
-            }
-        }
-    }
-    // hand-written seeds for structured syntax that needs more than 5 tokens
-    for s in [
-        "(?<a>x)\\k<a>", "(?<a>x)|(?<a>y)", "(?:(?<a>x)|(?<a>y))\\k<a>", "(?<a>x)(?<a>y)", "(?<a>(?<a>x))", "(?:(?<a>x)|b)(?:c|(?<a>y))", "(?<a>x)|(?:(?<a>y)|z)", "((?<a>x)|(?<a>y))(?<a>z)", "\\k<a>", "\\k<a>(?<a>x)", "(?<a>x)\\k<b>",
-        "(?i:a)", "(?-i:a)", "(?i-m:a)", "(?ii:a)", "(?i-i:a)", "(?-:a)", "(?:a)", "(?ims-:a)", "(?i-ms:a)(?s:.)", "[\\q{ab|c}]", "[^\\q{ab}]", "[^\\q{a}]", "[a&&b]", "[a--b]", "[a&&b--c]", "[[a-z]&&[^aeiou]]", "[a&&&b]", "[a-z&&b]", "[\\p{L}--\\p{Lu}]",
-        "[^\\p{RGI_Emoji}]", "\\P{RGI_Emoji}", "\\p{RGI_Emoji}", "[\\p{RGI_Emoji}--\\q{a}]", "[a-]", "[-a]", "[a-\\d]", "[\\d-a]", "[\\d-\\w]", "[z-a]", "[\\b]", "[\\-]", "[\\c1]", "[\\c]", "\\c1", "\\ca", "\\c", "[\\k]", "\\k", "\\u{61}", "\\u{110000}",
-        "\\u0061", "\\ud83d\\ude00", "\\x61", "\\x6", "\\00", "\\08", "\\011", "\\1(a)", "\\2(a)", "\\10", "(a)(a)(a)(a)(a)(a)(a)(a)(a)(a)\\10", "\\8", "\\9", "a{1,2}", "a{2,1}", "a{1", "a{1,", "a{,1}", "a{}", "{1}", "a{1}{2}", "a**", "a*?", "a??", "a+*",
-        "(?=a)*", "(?!a)+", "(?<=a)*", "(?<!a)?", "\\b*", "\\B+", "^*", "$?", "(?<=a)", "(?<a", "(?<1a>x)", "(?<a-b>x)", "(?<$_>x)", "(?<\\u0061>x)\\k<a>", "(?<\\u{61}>x)", "(?<a\\u{1F600}>x)", "]", "}", "{", ")", "(", "[", "[]", "[^]", "a|", "|", "||a", "()", "(|)",
-        "\\p{Lu}", "\\p{gc=Lu}", "\\p{Script=Latin}", "\\p{scx=Latn}", "\\p{Foo}", "\\p{Lu", "\\p", "\\pL", "\\P{Any}", "\\p{ASCII}", "[\\p{Lu}-z]", "[!!]", "[a!!b]", "[?*]", "[+^]", "[&a]", "[a&]", "[&&]", "[(]", "[a|b]", "[\\|]", "[\\&]", "[\\!]", "[\\a]",
-    ] {
-        let p: Vec<u32> = s.chars().map(|c| c as u32).collect();
+    for p in seed_patterns(thorough) {
         for m in MODES {
             seeds.push((p.clone(), Flags::parse(m)));
         }
@@ -179,8 +186,55 @@ pub fn c08(run: &mut Run) -> Stats {
         })
         .reduce(Stats::default, Stats::merge);
     st = st.merge(st_b);
+    // (c) a focused alphabet at greater depth: brackets, groups and numeric backreferences (the pre-scan
+    // that counts groups must skip classes exactly as the parser reads them)
+    let focus: Vec<u32> = "[]()a\\1".chars().map(|c| c as u32).collect();
+    let fn_len = if thorough { 9 } else { 8 };
+    let ftotal = total_strings(focus.len() as u64, fn_len);
+    let fchunks = (ftotal + chunk - 1) / chunk;
+    let st_c = (0..fchunks)
+        .into_par_iter()
+        .fold(Stats::default, |mut st, ci| {
+            for idx in ci * chunk..((ci + 1) * chunk).min(ftotal) {
+                let pat = token_string(&focus, idx);
+                if pat.len() <= n {
+                    continue; // already covered by (a)
+                }
+                for m in MODES {
+                    judge(&pat, Flags::parse(m), &mut st, runref, "focused token string ([ ] ( ) a \\ 1)");
+                }
+            }
+            st
+        })
+        .reduce(Stats::default, Stats::merge);
+    st = st.merge(st_c);
+    // (d) size-parameterised shapes below the documented resource limits: same verdict as the grammar
+    let mut shape_jobs: Vec<(String, usize)> = Vec::new();
+    for name in ["alt", "alt_in_group", "alt_groups", "stars", "groups", "named_groups", "backrefs", "literal", "literal_lookbehind", "class_members", "class_ranges", "class_qstrings", "class_subtract", "escapes", "lazy_opt_groups", "lookbehind_groups", "sibling_nested_classes", "nested_class_list", "sibling_groups_in_group", "count_exact", "count_range", "prop_any"] {
+        for sz in [1usize, 2, 10, 100, 200, 255, 256, 257, 300, 1000] {
+            shape_jobs.push((name.to_string(), sz));
+        }
+    }
+    for name in ["nest_capture", "nest_noncap", "nest_lookahead", "nest_lookbehind", "nest_modifier", "nest_class", "nest_quant"] {
+        for sz in [1usize, 2, 10, 100, 200] {
+            shape_jobs.push((name.to_string(), sz));
+        }
+    }
+    let st_d = shape_jobs
+        .par_iter()
+        .fold(Stats::default, |mut st, (name, sz)| {
+            if let Some(p) = crate::c07::shape(name, *sz) {
+                let pat: Vec<u32> = p.chars().map(|c| c as u32).collect();
+                for m in MODES {
+                    judge(&pat, Flags::parse(m), &mut st, runref, &format!("shape {} n={}", name, sz));
+                }
+            }
+            st
+        })
+        .reduce(Stats::default, Stats::merge);
+    st = st.merge(st_d);
     run.rule = format!(
-        "(a) every string over the {}-token alphabet {:?} of length <= {} x {{legacy, u, v}}; (b) {} seed patterns (printed from the named/mods/look/core/onechar/icase profiles plus hand-written structured syntax) x all single-token edits (delete, replace, insert at every position over a 28-token alphabet); verdict = with_flags(p,f).is_ok() <=> p in L(ES2025 Pattern[f]) as decided by the reference parser; non-trivial = the string is a valid pattern",
+        "(a) every string over the {}-token alphabet {:?} of length <= {} x {{legacy, u, v}}; (b) {} seed patterns (printed from the named/mods/look/core/onechar/icase profiles plus hand-written structured syntax) x all single-token edits (delete, replace, insert at every position over a 28-token alphabet); (c) every string over the focused alphabet {{[ ] ( ) a \\ 1}} up to length 8 (9 thorough); (d) 29 size-parameterised shapes x sizes up to 1000 (nesting shapes up to 200, below the documented limits); verdict = with_flags(p,f).is_ok() <=> p in L(ES2025 Pattern[f]) as decided by the reference parser; non-trivial = the string is a valid pattern",
         toks.len(),
         TOKENS,
         n,
